@@ -403,6 +403,8 @@ let () =
              let a = bytes_of_hex h in
              let l = lf_index (mem_of a) (n_of_int (Array.length a)) in
              Printf.sprintf "%d:%s" (List.length l) (String.concat "," (List.map (fun x -> string_of_int (int_of_n x)) l))
+           | ["freenull"] -> "ok"
+           | "docreg" :: h :: reg :: mode :: eof :: rest
            | "doc" :: h :: reg :: mode :: eof :: rest ->
              let a = bytes_of_hex h in
              let len = match rest with [l] -> int_of_string l | _ -> Array.length a in
